@@ -6,6 +6,7 @@
 -/
 import GoSecs.Lemmas.Secs1
 import GoSecs.Lemmas.Secs1Gen
+import GoSecs.Lemmas.Secs1AsmGen
 import GoSecs.Gen.Consts
 
 namespace GoSecs.Props.C17
@@ -82,6 +83,31 @@ theorem assembleFrame_gen (blocks : List Block) :
         | .ok f => (f, none)
         | .error e => (([] : Bytes), some e.goName)) :=
   Secs1.assembleFrame_gen blocks
+
+/-- **`accept_gen`: the SOURCE's assembler is the model's.** `Gen.secs1_assembler_accept` (with `beginMessage`,
+    `startMessage`, `appendBlock`, `complete`, `reset`, `report`) is re-translated from secs1/assembler.go on every run
+    as a state-passing function on the assembler value. For every assembler state, every block, every clock reading
+    `now`, every live-timer answer with `T4 = a.t4` and every verdict `derr` of the core on a delivered frame: run with
+    the oracle values of exactly the calls it makes (`acceptOrc`: clock + timers while a partial is open, the clock
+    when the block is taken, the verdict when a frame is delivered) it returns normally; the assembler it returns
+    encodes `(a.accept now blk).1` — open flag, header, accumulated blocks, expected number, T4 base, and the
+    duplicate record; the error it returns is the assembleFrame sentinel or the core's verdict; and its trace without
+    the clock / timer reads is the model's events rendered call by call (each counter increment, each notify
+    with its violation and the block's header, the delivered frame), in order. -/
+theorem accept_gen (s0 : Gen.secs1_assembler) (a : Asm) (now : Nat) (tc : Gen.hsms_TimerConfig)
+    (htc : tc.T4 = (a.t4 : Int)) (blk : Block) (derr : Go.Err) :
+    ∃ tr, Gen.secs1_assembler_accept (a.toGen s0) blk.toGen (acceptOrc a now tc blk derr) =
+        some ((a.accept now blk).1.toGen s0, errOf derr (a.accept now blk).2, tr, []) ∧
+      obs tr = (a.accept now blk).2.flatMap (AEv.effects s0 blk) := by
+  refine ⟨(acceptRes s0 a now blk derr).2, ?_, (acceptRes_model s0 a now blk derr).1⟩
+  rw [Secs1.accept_gen s0 a now tc htc blk derr, (acceptRes_model s0 a now blk derr).2]
+
+/-- `reset` keeps the duplicate record (E4 §9.4.2: `lastHeader` / `haveLast` persist across message boundaries), in
+    the regenerated code. -/
+theorem reset_gen (s0 : Gen.secs1_assembler) (a : Asm) :
+    Gen.secs1_assembler_reset (a.toGen s0) = (a.reset.toGen s0, []) ∧
+    a.reset.lastHeader = a.lastHeader ∧ a.reset.haveLast = a.haveLast :=
+  ⟨Secs1.reset_gen s0 a, rfl, rfl⟩
 
 /-! ## Outbound: blocks on the line -/
 
